@@ -268,6 +268,7 @@ func (c *Conn) writeFrame(ctx context.Context, fin bool, flate bool, opcode opco
 		return 0, net.ErrClosed
 	case c.writeTimeout <- ctx:
 	}
+	simYield("wf.armed", c)
 
 	defer func() {
 		if err != nil {
@@ -317,6 +318,7 @@ func (c *Conn) writeFrame(ctx context.Context, fin bool, flate bool, opcode opco
 		}
 	}
 
+	simYield("wf.written", c)
 	select {
 	case <-c.closed:
 		if opcode == opClose {
